@@ -36,6 +36,7 @@ type c19Spec struct {
 	NoSrv   bool // no protocol servers at all (hub + scanner only)
 	Prelude bool // sessions are opened (and brought to their protocol state) in the init phase
 	TLS     bool // POP3 offers STLS; the client upgrades the session before logging in
+	Slow    bool // the client pauses 250 s (fake clock) before every line: the session is active for longer than the idle timeout (600 s), never idle that long
 	Bound   [2]int
 }
 
@@ -48,6 +49,7 @@ func c19Specs() []c19Spec {
 		{ID: "G8-pop3-two-sessions-idle-and-marked", Proto: "pop3", Clients: 2, Short: true, Prelude: true, Bound: [2]int{1, 2}},
 		{ID: "G7-smtp-two-sessions-idle-and-transfer", Proto: "smtp", Clients: 2, Short: true, Prelude: true, Bound: [2]int{1, 2}},
 		{ID: "G2-pop3-session-cancel-drain", Proto: "pop3", Clients: 1, Bound: [2]int{1, 2}},
+		{ID: "G12-pop3-slow-session-outlives-the-idle-timeout", Proto: "pop3", Clients: 1, Slow: true, Bound: [2]int{1, 2}},
 		{ID: "G11-pop3-stls-session-cancel-drain", Proto: "pop3", Clients: 1, TLS: true, Bound: [2]int{1, 2}},
 		{ID: "G5-both-two-sessions", Proto: "both", Clients: 2, Short: true, Bound: [2]int{0, 1}},
 		{ID: "G1-smtp-session-cancel-drain", Proto: "smtp", Clients: 1, Bound: [2]int{1, 2}},
@@ -78,6 +80,10 @@ func c19Scenario(c *fw.Ctx, sp c19Spec) schedScenario {
 		joinReturned, hubReturned := false, false
 		var finalCheck func() [][2]string
 		var finalProbs [][2]string
+		if sp.Slow {
+			// the fake clock advances (in steps of 125 s) whenever nothing else can run
+			cfg.Tick, cfg.MaxTicks = 125*time.Second, 16
+		}
 		leaked := inBubble(c.T, func() {
 			var cancel context.CancelFunc
 			var s *sys.Sys
@@ -183,6 +189,9 @@ func c19Scenario(c *fw.Ctx, sp c19Spec) schedScenario {
 				// talk runs the given lines on an open connection (a scheduling point before each)
 				talk := func(cl *c19Client, conn net.Conn, r *bufio.Reader, lines []string, points bool) bool {
 					for _, line := range lines {
+						if sp.Slow {
+							time.Sleep(250 * time.Second)
+						}
 						if points {
 							vsched.Point("client: about to send " + strings.Fields(line)[0])
 						}
